@@ -28,7 +28,7 @@ LEVEL_NOTE = ('Finite value alphabets; sums reorder under permutation, so permut
 RULE = ("cases: (kind, configuration, chunk); executions: Fitter.fit calls compared pairwise; for histories a state is (fitter canonical hash, history) and a transition one fit; "
         "non-trivial = distinct non-identity permutations / constants != 1 / histories of length >= 2")
 ASSUMPTIONS = ["finite value alphabets", "canonical encoding of Fitter covers all state that can influence a fit (models.fluxes, names, wavelengths, distances, logd, extended, av_law, sc_law, av_range, filters)"]
-REQUIRED_CLASSES = ['model-perm-hundreds-of-models', 'filter-list-mixes-names-and-wavelengths', 'history-on-package-with-a-dead-model', 'history-same-flags-different-photometry', 'integer-typed-photometry', 'earlier-results-rechecked', 'both-limit-kinds-different-confidence', 'filter-perm', 'model-perm-files', 'brightness-constant', 'history-len3', 'history-repeat-same-source', 'mode-2d', 'mode-3d', 'float32-path',
+REQUIRED_CLASSES = ['filter-perm-with-unused-band-and-resolved-removal', 'two-fitters-built-before-either-is-used', 'model-perm-hundreds-of-models', 'filter-list-mixes-names-and-wavelengths', 'history-on-package-with-a-dead-model', 'history-same-flags-different-photometry', 'integer-typed-photometry', 'earlier-results-rechecked', 'both-limit-kinds-different-confidence', 'filter-perm', 'model-perm-files', 'brightness-constant', 'history-len3', 'history-repeat-same-source', 'mode-2d', 'mode-3d', 'float32-path',
                     'source-with-limits', 'source-all-flag4']
 TIMEOUT = {'quick': 600, 'thorough': 3000}
 
@@ -106,7 +106,7 @@ def _res(info, names):
     return fc._asf(info.av)[rows], fc._asf(info.sc)[rows], fc._asf(info.chi2)[rows]
 
 
-def _build(d, tag, mode, fmt, names, bands_pkg, seed, perm=None, n_models=None, dead=False):
+def _build(d, tag, mode, fmt, names, bands_pkg, seed, perm=None, n_models=None, dead=False, ext_band=None):
     """physical grid depends on seed only; perm reorders the package."""
     n_models = n_models or len(names)
     if mode == '2d':
@@ -119,6 +119,8 @@ def _build(d, tag, mode, fmt, names, bands_pkg, seed, perm=None, n_models=None, 
     ap, t = fc.grid3d(seed * 10 + 8, n_models=n_models, n_ap=3, bands=bands_pkg)
     if dead:
         t[2, 1, :] = 0.0
+    if ext_band is not None and n_models >= 3:
+        t[2, ext_band, :] = t[2, ext_band, 0] * np.array([1.0, 1e2, 1e4])          # model 2 is extended in that one band only
     p = list(range(n_models)) if perm is None else list(perm)
     spec = {'fmt': fmt, 'names': [names[i] for i in p], 'bands': bands_pkg, 'apertures': ap, 'tables': t[p], 'logd_step': 0.25}
     return fc.build_package(d, tag, spec), t, ap
@@ -185,7 +187,7 @@ def run_case(ctx, case, rec, d):
         kf = case['k']
         bands_all = ['B1', 'B2', 'B3', 'B4', 'B5', 'B6'][:kf]
         names = fc.names_for(4)
-        md, f, ap = _build(d, 'pkg', mode, fmt, names, bands_all, seed)
+        md, f, ap = _build(d, 'pkg', mode, fmt, names, bands_all, seed, ext_band=(1 if mode == '3d' else None))
         kk = fc.law_k('power', [fc.BAND_WAV[b] for b in bands_all])
         theta = np.array([1.0, 3.0, 1.0, 2.0, 1.0, 3.0][:kf])
         base = (f[1] if mode == '2d' else f[1][:, 1]) * 10 ** (1.5 * kk) * (2.0 if mode == '2d' else 0.5)
@@ -226,6 +228,30 @@ def run_case(ctx, case, rec, d):
             ok = all(np.allclose(x, y, rtol=max(t, 1e-10), atol=max(t, 1e-10) * (1 + np.max(np.abs(y)))) for x, y in zip(r, b0))
             if not ok:
                 rec.violation('invariance|filter-permutation|%s' % mode, {'perm': p}, {'identity': list(b0), 'permuted': list(r)})
+        # the same with resolved models removed and one band switched off (the band in which one model is extended): where the unused
+        # band stands in the list does not matter
+        if mode == '3d' and kf >= 3:
+            flags0 = tuple(0 if j == 1 else (1 if j != 2 else 4) for j in range(kf))
+            fl0, er0 = fl.copy(), er.copy()
+            if flags0[2] == 4 and flags[2] != 4:
+                fl0[2], er0[2] = np.log10(base[2]), 0.04
+            for j in range(kf):
+                if flags0[j] == 1 and flags[j] != 1:
+                    fl0[j], er0[j] = base[j], 0.1 * base[j]
+            ident_rr = fc.make_fitter(md, bands_all, 'power', avr, theta=theta, **dict(kw, by_wavelength=mixed, remove_resolved=True))
+            b1 = _res(ident_rr.fit(fc.make_source(flags0, fl0, er0)), names)
+            for p in perms:
+                p = list(p)
+                fp = fc.make_fitter(md, [bands_all[i] for i in p], 'power', avr, theta=theta[p], **dict(kw, by_wavelength=[mixed[i] for i in p], remove_resolved=True))
+                r = _res(fp.fit(fc.make_source([flags0[i] for i in p], fl0[p], er0[p])), names)
+                rec.ev(len(names))
+                rec.trans()
+                rec.cls('filter-perm-with-unused-band-and-resolved-removal')
+                t = _tol(f32)
+                fin_ = np.isfinite(b1[2]) & np.isfinite(r[2])
+                ok = np.array_equal(np.isfinite(b1[2]), np.isfinite(r[2])) and all(np.allclose(x[fin_], y[fin_], rtol=max(t, 1e-10), atol=max(t, 1e-10) * (1 + np.max(np.abs(y[fin_])) if np.any(fin_) else 1)) for x, y in zip(r, b1))
+                if not ok:
+                    rec.violation('invariance|filter-permutation|%s|remove-resolved' % mode, {'perm': p, 'flags': list(flags0)}, {'identity': list(b1), 'permuted': list(r)})
         return
 
     if kind == 'mperm':
@@ -277,6 +303,18 @@ def run_case(ctx, case, rec, d):
             fresh.append(canon(_strip(ft.fit(fc.make_source(fv, fl, er)))))
         if fc.observed_f32(ft):
             rec.cls('float32-path')
+        # two fitters built one after the other on the same package, THEN used (the first one last): each still gives the fresh result
+        if case['first_source'] in (0, 3):
+            fa = fc.make_fitter(md, B4, 'power', avr, **kw)
+            fb = fc.make_fitter(md, B4, 'power', avr, **dict(kw, remove_resolved=(mode == '3d')))
+            for which_, ft_, si_ in (('second', fb, 1), ('first', fa, case['first_source'])):
+                fv_, fl_, er_ = srcs[si_]
+                got_ = canon(_strip(ft_.fit(fc.make_source(fv_, fl_, er_))))
+                rec.trans()
+                rec.ev()
+                rec.cls('two-fitters-built-before-either-is-used')
+                if which_ == 'first' and got_ != fresh[si_]:
+                    rec.violation('history|result-depends-on-history|%s' % mode, {'two_fitters': True}, {'problem': 'a fitter built before another fitter on the same package, and used after it, does not give the fresh-fitter result for source %d' % si_})
         seqs = [[case['first_source']] + list(t) for L in (0, 1, 2) for t in itertools.product(range(N_SRC), repeat=L)]
         if ctx['tier'] == 'thorough':
             seqs += [[case['first_source']] + list(t) for t in itertools.product(range(N_SRC), repeat=3)]
